@@ -134,7 +134,8 @@ CHECKS = {
         "with independent (R4) Cartesian->spherical matrices; transformation law incl. rectangular T; shell subclasses with "
         "permuted/signed conventions (all for l<=1, drawn above); assembly classes checked against a ground-truth tensor for "
         "all 1-2-shell shapes (3-shell sampled; four-index: all up to 3 shells), every construct_array_* path.",
-        "Relations judged at 1e-9 (ERI 2e-6) of library-derived natural magnitudes. Trusts vf/ref R4.",
+        "Relations judged at 1e-9 (ERI 2e-6) of library-derived natural magnitudes. Trusts vf/ref R4. Conventions are also "
+        "driven through gbasis.wrappers.from_iodata with a stand-in for the (not installable) iodata package.",
         "DESIGN.md 6/C09",
     ),
     "C11": (
@@ -199,7 +200,8 @@ CHECKS = {
         "the setters, renormalisation, numpy error-state changes): after every step all pooled arguments/shells are "
         "bit-identical to the model, numpy.geterr() is what the machine set, a valid call equals the same call on never "
         "shared copies, shells are unit-normalised as constructed and after assign_norm_cont().",
-        "Histories up to 20 (quick) / 25 (thorough) steps; only object kinds in the pool. Failing histories are stored as "
+        "Histories up to 20 (quick) / 30 (thorough) steps; only object kinds in the pool (incl. shells imported through "
+        "from_iodata from two stand-in molecules with different conventions, and in-place changes of shell arrays). Failing histories are stored as "
         "plain step lists and replayed through the same interpreter without Hypothesis. D7 and D9 were found here / in C18.",
         "DESIGN.md 6/C19",
     ),
@@ -248,8 +250,11 @@ def main():
         }],
         "checks": checks,
         "not_applicable": [{"property_id": p, "reason": NOT_YET} for p in props if p not in CHECKS],
-        "notes": "exit 0 held / 1 VIOLATION / 2 harness error. VERIF_SEED seeds every Hypothesis shard; "
-                 "KNOWN_FINDINGS.txt lists open findings and fixed defects; seeded/ holds confirmed breaking changes.",
+        "notes": "exit 0 held / 1 VIOLATION / 2 harness error. VERIF_SEED seeds every Hypothesis shard; VERIF_BUDGET_S bounds "
+                 "the wall time (unfinished shards are reported as inconclusive, never as violations). KNOWN_FINDINGS.txt lists "
+                 "open findings (none) and the twelve fixed defects; replay/<ID>/reg-*.json are their regression inputs; seeded/ "
+                 "holds 40 confirmed breaking changes written by independent sub-agents; mutants/ the mutation and "
+                 "benign-refactoring campaigns.",
     }
     path = os.path.join(HERE, "MANIFEST.json")
     with open(path, "w") as fh:
